@@ -757,6 +757,56 @@ fn diff(exp: &ExpTrace, obs: &Trace, redirecting: bool) -> Option<(String, Strin
     None
 }
 
+pub enum Ignored {
+    /// exactly the known finding K7
+    Exactly,
+    /// looks ignored at this state but not once the answer is in
+    OnlyUpToTheAnswer(String),
+    No,
+}
+
+/// K7 is recognised only in the command API, only for a non-empty request stack, and only when
+/// the run is exactly that of a request without middleware: the same single unchanged request,
+/// no marks, and - for every answer of the 17-symbol alphabet - that answer handed back
+/// unchanged with nothing else sent. Anything else (middleware applied partially, twice, in the
+/// wrong order, request dropped or altered, answer altered) keeps its own key.
+pub fn middleware_ignored(
+    cfg: &Config,
+    stack: &[(Atom, String)],
+    answers: &[Answer],
+    trace: &Trace,
+    run: &dyn Fn(&[Answer]) -> Option<Trace>,
+) -> Ignored {
+    if cfg.api != Api::CommandApi || stack.is_empty() || !cfg.client.is_empty() {
+        return Ignored::No;
+    }
+    let bare = Config { api: cfg.api, client: vec![], request: vec![] };
+    if !matches_exp(&expect(&bare, &[], answers, DEFAULT_POLICY), trace) {
+        return Ignored::No;
+    }
+    if trace.outcome.is_some() {
+        return Ignored::Exactly;
+    }
+    for a in alphabet17() {
+        let mut longer = answers.to_vec();
+        longer.push(a);
+        let Some(t) = run(&longer) else {
+            return Ignored::OnlyUpToTheAnswer(format!("answering {a:?} panics"));
+        };
+        let want = expect(&bare, &[], &longer, DEFAULT_POLICY);
+        if t.outcome.is_none() || !matches_exp(&want, &t) {
+            return Ignored::OnlyUpToTheAnswer(format!(
+                "after the answer {a:?} the run is requests {:?} marks {:?} outcome {:?}, a request without middleware gives outcome {:?}",
+                t.reqs.iter().map(|r| format!("{} {}", r.method, r.url)).collect::<Vec<_>>(),
+                t.marks,
+                t.outcome,
+                want.outcome
+            ));
+        }
+    }
+    Ignored::Exactly
+}
+
 pub struct NodeResult {
     pub trace: Trace,
     pub steps: u64,
@@ -797,18 +847,30 @@ pub fn check_node(cfg: &Config, stack: &[(Atom, String)], answers: &[Answer]) ->
             }
         }
     }
-    if finding.is_some() && cfg.api == Api::CommandApi && !stack.is_empty() {
-        // K7: is this exactly what a request without any middleware does?
-        let bare = Config { api: cfg.api, client: vec![], request: vec![] };
-        if matches_exp(&expect(&bare, &[], answers, DEFAULT_POLICY), &trace) {
-            finding = Some((
-                "command-api/middleware-ignored".into(),
-                format!(
-                    "request built with .middleware({:?}) behaves exactly like a request without middleware: {}",
-                    cfg.request,
-                    finding.unwrap().1
-                ),
-            ));
+    if finding.is_some() {
+        let cfg3 = cfg.clone();
+        let real = move |answers: &[Answer]| -> Option<Trace> {
+            let (c, a) = (cfg3.clone(), answers.to_vec());
+            catch(move || observe(&c, &a).0).ok()
+        };
+        match middleware_ignored(cfg, stack, answers, &trace, &real) {
+            Ignored::Exactly => {
+                finding = Some((
+                    "command-api/middleware-ignored".into(),
+                    format!(
+                        "request built with .middleware({:?}) behaves exactly like a request without middleware (one unchanged request, every answer handed back unchanged): {}",
+                        cfg.request,
+                        finding.unwrap().1
+                    ),
+                ));
+            }
+            Ignored::OnlyUpToTheAnswer(why) => {
+                finding = Some((
+                    "command-api/middleware-partially-applied".into(),
+                    format!("the request reaches the shell as if without middleware, but {why}"),
+                ));
+            }
+            Ignored::No => {}
         }
     }
     NodeResult { trace, steps, finding, panicked: false }
@@ -1026,13 +1088,84 @@ fn self_checks() -> Value {
             "C16 canary: true reference accepted {ok}; wrong references rejected: order {rejected_order}, bound {rejected_bound}, shell {rejected_shell}, stale base {rejected_stale}"
         ));
     }
+    // known-key canary: K7 must not absorb anything but "middleware ignored, exactly"
+    {
+        let cmd = Config { api: Api::CommandApi, client: vec![], request: vec![Atom::Pass] };
+        let cmd_stack = tagged(&cmd);
+        let bare = Config { api: Api::CommandApi, client: vec![], request: vec![] };
+        let bare_run = |answers: &[Answer]| Some(as_observed(&expect(&bare, &[], answers, DEFAULT_POLICY)));
+        let at_root = bare_run(&[]).unwrap();
+        let is_exact = |i: Ignored| matches!(i, Ignored::Exactly);
+        let mut bad = vec![];
+        if !is_exact(middleware_ignored(&cmd, &cmd_stack, &[], &at_root, &bare_run)) {
+            bad.push("genuine K7 not recognised");
+        }
+        // a mark from the middleware: partially applied
+        let mut t = at_root.clone();
+        t.marks.push("r0 enter".into());
+        if is_exact(middleware_ignored(&cmd, &cmd_stack, &[], &t, &bare_run)) {
+            bad.push("run with a middleware mark");
+        }
+        // the request reaches the shell twice
+        let mut t = at_root.clone();
+        t.reqs.push(t.reqs[0].clone());
+        if is_exact(middleware_ignored(&cmd, &cmd_stack, &[], &t, &bare_run)) {
+            bad.push("request sent twice");
+        }
+        // the request is altered
+        let mut t = at_root.clone();
+        t.reqs[0].body.clear();
+        if is_exact(middleware_ignored(&cmd, &cmd_stack, &[], &t, &bare_run)) {
+            bad.push("request altered");
+        }
+        // the request is dropped
+        let mut t = at_root.clone();
+        t.reqs.clear();
+        if is_exact(middleware_ignored(&cmd, &cmd_stack, &[], &t, &bare_run)) {
+            bad.push("request dropped");
+        }
+        // the answer does not come back unchanged
+        let altered_answer = |answers: &[Answer]| {
+            let mut t = as_observed(&expect(&bare, &[], answers, DEFAULT_POLICY));
+            if let Some(o) = &mut t.outcome {
+                o.push('!');
+            }
+            Some(t)
+        };
+        if is_exact(middleware_ignored(&cmd, &cmd_stack, &[], &at_root, &altered_answer)) {
+            bad.push("answer altered on the way back");
+        }
+        // a second request after the answer
+        let asks_again = |answers: &[Answer]| {
+            let mut t = as_observed(&expect(&bare, &[], answers, DEFAULT_POLICY));
+            if !answers.is_empty() {
+                t.reqs.push(t.reqs[0].clone());
+            }
+            Some(t)
+        };
+        if is_exact(middleware_ignored(&cmd, &cmd_stack, &[], &at_root, &asks_again)) {
+            bad.push("second request after the answer");
+        }
+        // the capability API never gets the key
+        for api in [Api::CapSend, Api::CapAsync, Api::InnerClient] {
+            let cap = Config { api, client: vec![], request: vec![Atom::Pass] };
+            let cap_bare = Config { api, client: vec![], request: vec![] };
+            let t = as_observed(&expect(&cap_bare, &[], &[], DEFAULT_POLICY));
+            if !matches!(middleware_ignored(&cap, &tagged(&cap), &[], &t, &bare_run), Ignored::No) {
+                bad.push("capability API given the command-API key");
+            }
+        }
+        if !bad.is_empty() {
+            mc_kit::machinery_error(&format!("C16 known-key canary: absorbed {bad:?}"));
+        }
+    }
     // determinism
     let (a, _) = observe(&cfg2, &answers2);
     let (b, _) = observe(&cfg2, &answers2);
     if a != b {
         mc_kit::machinery_error("C16: the same case gave two different observations");
     }
-    json!({"canary_wrong_references_rejected": 4, "canary_true_reference_accepted": ok})
+    json!({"canary_wrong_references_rejected": 4, "canary_true_reference_accepted": ok, "known_key_canary_K7_variants_kept_apart": 9})
 }
 
 pub fn replay(path: &str) -> i32 {
